@@ -116,6 +116,19 @@ impl<E: Pairing> Commitment<E> {
     }
 }
 
+#[cfg(ark_poly_commit_verif)]
+impl<E: Pairing> Commitment<E> {
+    /// Verification hook: the group element inside the commitment.
+    pub fn verif_inner(&self) -> E::G1Affine {
+        self.0
+    }
+
+    /// Verification hook: wrap a group element as a commitment.
+    pub fn verif_from_inner(inner: E::G1Affine) -> Self {
+        Commitment(inner)
+    }
+}
+
 #[inline]
 fn msm<E: Pairing>(bases: &[E::G1Affine], scalars: &[E::ScalarField]) -> E::G1Affine {
     let scalars = scalars.iter().map(|x| x.into_bigint()).collect::<Vec<_>>();
